@@ -76,6 +76,11 @@ CLAIMED = {
   note="Crash = process termination, not power loss. Temporary files left behind are allowed. strace counts invocations per thread: a k can be shadowed by another thread; the write-size limit variant is per byte.",
   technique="TLA+ spec (AtomicCreate.tla) model-checked with TLC + strace-recorded file-system protocol and exhaustive crash / I/O-error injection on the real creator + trace validation (AtomicCreateTrace.tla)",
   design="5 C09"),
+ "C07": dict(
+  text="Decoder.tla models the length-publication protocol with an explicit condition variable (readers evaluate their predicate, block, are woken and re-evaluate), chunk writes and publications as separate steps, and a decoder that may fail at any chunk boundary. TLC checks, for 3 readers x 3 chunks (more requests and chunks in thorough), LengthsOrdered, ReadsBelowWritten and, under weak fairness, Served (every request ends with a slice or - after a decoder failure - an error); the variants notify_one, length stored without the mutex, publish-before-write and failure-not-reported are each violated. The hooked build (--cfg jubako_verif) runs N in {2,8,16,32} reader threads over one opened pack with 45 compressed clusters (> 40 cache slots) and up to 44 clusters of > 500 chunks decoding at once (> 8 pool threads), same and different contents, whole and partial ranges through get_slice / stream / read_exact; the hooks fire while the buffer's mutex is held and double as seeded schedule points. DecoderTrace.tla accepts a run only if every Write / Publish / WaitDone / Slice obeys the protocol invariants per buffer, the cache never exceeds its capacity, every read returned exactly the stored bytes and every thread terminated.",
+  note="Real schedules are sampled (200 seeds quick, 5000 thorough), the protocol is exhaustive in the model. 'No memory error' is covered only through the protocol invariant (readers below published, writer above, no reallocation); no sanitizer is part of this technique.",
+  technique="TLA+ spec (Decoder.tla, safety + liveness with explicit condvar) model-checked with TLC + guarded hooks at linearization points + trace validation (DecoderTrace.tla) of seeded concurrent runs",
+  design="5 C07"),
 }
 
 REASON_TODO = "check not built yet (work in progress; see DESIGN.md section 9 for the order of work)"
@@ -106,7 +111,7 @@ def main():
             "guard": "jubako_verif",
             "enable": "RUSTFLAGS='--cfg jubako_verif' (set by tools/common.py build(hooked=True); target dir harness/target-hooked)",
             "baseline_off_cmd": "cd /repo && cargo test --workspace --no-fail-fast --offline",
-            "source_commits": [],
+            "source_commits": ["8da2a12"],
             "add_only": True,
         },
         "engines": [
